@@ -30,7 +30,8 @@ type c19Op struct {
 }
 
 type c19In struct {
-	Ops []c19Op `json:"ops"`
+	Ops []c19Op `json:"ops,omitempty"`
+	Esc *string `json:"esc,omitempty"` // escape case: the directory the filesystem backstore creates for this key value
 }
 
 var c19Types = []*asserts.AssertionType{asserts.TestOnlyType, asserts.TestOnly2Type, asserts.TestOnlySeqType, asserts.AccountType}
@@ -183,7 +184,40 @@ const (
 	c19Predefined = "[(3, [bs \"predefined\"])]"
 )
 
+// c19ExecEsc stores a one-key assertion with the given key value in a fresh filesystem backstore and reports the name of
+// the directory created for it under asserts-v0/test-only/
+func c19ExecEsc(v string) vh.Out {
+	dir, err := os.MkdirTemp("", "verif-c19-esc-")
+	if err != nil {
+		panic(err)
+	}
+	defer os.RemoveAll(dir)
+	fs, err := asserts.OpenFSBackstore(dir)
+	if err != nil {
+		panic(err)
+	}
+	a, err := c19Sign(c19Op{Kind: "add", Type: 0, Key: []string{v}}, 1)
+	if err != nil {
+		panic(fmt.Sprintf("cannot sign key %q: %v", v, err))
+	}
+	if err := fs.Put(asserts.TestOnlyType, a); err != nil {
+		panic(err)
+	}
+	name := "<none>"
+	typeDir := dir + "/asserts-v0/test-only"
+	if ents, err := os.ReadDir(typeDir); err == nil && len(ents) == 1 && ents[0].IsDir() {
+		if _, err := os.Stat(typeDir + "/" + ents[0].Name() + "/active"); err == nil {
+			name = ents[0].Name()
+		}
+	}
+	return vh.Out{Observed: map[string]interface{}{"dirname": name}, Coq: "(CEsc " + vh.CoqBytes(v) + " " + vh.CoqBytes(name) + ")",
+		NonTrivial: name != v, Tags: []string{"esc"}}
+}
+
 func c19Exec(in c19In) vh.Out {
+	if in.Esc != nil {
+		return c19ExecEsc(*in.Esc)
+	}
 	mem := asserts.NewMemoryBackstore()
 	dir, err := os.MkdirTemp("", "verif-c19-")
 	if err != nil {
@@ -253,15 +287,25 @@ func c19Exec(in c19In) vh.Out {
 
 // ---------------------------------------------------------------- generation
 
+// primary-key values that the stores must keep apart and find again: every character that url.QueryEscape, url.PathEscape
+// or a file-name glob treat specially, strings that look like escapes of each other, case variants, non-ASCII
+// ('/' cannot occur: primary keys containing it are refused when the assertion is assembled)
+var c19Special = []string{"$", "&", "+", "=", ":", "@", " ", ",", ";", "%", "?", "#", "*", "[", "]", "\\", "[a]", "a*", "?a", "a$b", "a&b", "a+b", "a b",
+	"a=b", "a:b", "a@b", "a,b", "a;b", "a%b", "a?b", "a#b", "a*b", "a[b]", "a\\b", "%2B", "a%2Bb", "a%20b", "a+b ", " a", "A", "a", "aB", "Ab", "é", "日本", "a.b", "a~b", "a_b", "-",
+	"...", ".a", "a.", "active", "active.1", "0:a", "1:x", "!", "'", "(a)", "{a}", "|", "<>", "^", "`", "a\"b"}
+
 func c19GenKey(r *vh.Rand, typ int) []string {
 	ids := []string{"a", "b", "c"}
+	if r.Chance(1, 3) {
+		ids = []string{r.Pick(c19Special), r.Pick(c19Special), "a"}
+	}
 	switch typ {
 	case 0:
 		return []string{r.Pick(ids)}
 	case 1:
-		return []string{r.Pick(ids), r.Pick([]string{"x", "y"})}
+		return []string{r.Pick(ids), r.Pick([]string{"x", "y", r.Pick(c19Special)})}
 	case 2:
-		return []string{r.Pick([]string{"s1", "s2"}), strconv.Itoa(r.Range(1, 6))}
+		return []string{r.Pick([]string{"s1", "s2", r.Pick(c19Special)}), strconv.Itoa(r.Range(1, 6))}
 	}
 	return []string{r.Pick([]string{"canonical", "predefined", "dev1", "dev2"})}
 }
@@ -300,7 +344,82 @@ func c19History(r *vh.Rand, n int) c19In {
 			ops = append(ops, c19Op{Kind: "seq", Type: 2, Key: []string{r.Pick([]string{"s1", "s2", "s3"})}, After: r.Range(-1, 6), MaxF: r.Range(0, 3)})
 		}
 	}
-	return c19In{Ops: ops}
+	return c19In{Ops: c19Lookups(r, ops)}
+}
+
+// c19Lookups appends, for every key that was added, a Get and Searches with all, some and none of the primary-key
+// headers given (and the sequence lookup for sequence-forming keys)
+func c19Lookups(r *vh.Rand, ops []c19Op) []c19Op {
+	seen := map[string]bool{}
+	seenType := map[int]bool{}
+	out := ops
+	for _, op := range ops {
+		if op.Kind != "add" || op.Type == 3 {
+			continue
+		}
+		id := fmt.Sprintf("%d/%q", op.Type, op.Key)
+		if seen[id] {
+			continue
+		}
+		seen[id] = true
+		maxS := c19Types[op.Type].MaxSupportedFormat()
+		key := append([]string{}, op.Key...)
+		out = append(out, c19Op{Kind: "get", Type: op.Type, Key: key, MaxF: maxS}, c19Op{Kind: "search", Type: op.Type, Key: key, MaxF: maxS})
+		for i := range key {
+			if len(key) > 1 {
+				sub := append([]string{}, key...)
+				sub[i] = ""
+				out = append(out, c19Op{Kind: "search", Type: op.Type, Key: sub, MaxF: maxS})
+			}
+		}
+		if op.Type == 2 {
+			out = append(out, c19Op{Kind: "seq", Type: 2, Key: key[:1], After: -1, MaxF: maxS}, c19Op{Kind: "seq", Type: 2, Key: key[:1], After: r.Range(0, 3), MaxF: maxS})
+		}
+		if !seenType[op.Type] {
+			seenType[op.Type] = true
+			none := make([]string, len(key))
+			out = append(out, c19Op{Kind: "search", Type: op.Type, Key: none, MaxF: maxS})
+		}
+	}
+	return out
+}
+
+// c19Sweep: every special value as the key of a test-only assertion, as either component of a two-part key and as the
+// sequence key of a sequence-forming one, a few values per history so that look-alikes share a store
+func c19Sweep(r *vh.Rand) []c19In {
+	var ins []c19In
+	vals := append([]string{}, c19Special...)
+	for start := 0; start < len(vals); start += 6 {
+		end := start + 6
+		if end > len(vals) {
+			end = len(vals)
+		}
+		var ops []c19Op
+		for _, v := range vals[start:end] {
+			ops = append(ops, c19Op{Kind: "add", Type: 0, Key: []string{v}, Rev: r.Range(0, 2)},
+				c19Op{Kind: "add", Type: 1, Key: []string{v, "x"}, Rev: r.Range(0, 2)},
+				c19Op{Kind: "add", Type: 1, Key: []string{"x", v}, Rev: r.Range(0, 2)},
+				c19Op{Kind: "add", Type: 2, Key: []string{v, strconv.Itoa(r.Range(1, 3))}, Rev: r.Range(0, 2), Fmt: r.Range(0, 2)})
+		}
+		// look-alikes that must stay apart: escapes of each other, neighbours in the list
+		ops = append(ops, c19Op{Kind: "get", Type: 0, Key: []string{"a%2Bb"}, MaxF: 1}, c19Op{Kind: "search", Type: 0, Key: []string{"a+b"}, MaxF: 1},
+			c19Op{Kind: "search", Type: 0, Key: []string{"a b"}, MaxF: 1}, c19Op{Kind: "search", Type: 0, Key: []string{"a%20b"}, MaxF: 1},
+			c19Op{Kind: "search", Type: 0, Key: []string{"*"}, MaxF: 1}, c19Op{Kind: "get", Type: 0, Key: []string{"?"}, MaxF: 1})
+		ins = append(ins, c19In{Ops: c19Lookups(r, ops)})
+	}
+	return ins
+}
+
+// c19Dots: primary-key components that are the directory names "." and ".." (kept in histories of their own)
+func c19Dots(r *vh.Rand) []c19In {
+	var ins []c19In
+	for _, v := range []string{".", ".."} {
+		ins = append(ins,
+			c19In{Ops: c19Lookups(r, []c19Op{{Kind: "add", Type: 0, Key: []string{"a"}, Rev: 1}, {Kind: "add", Type: 0, Key: []string{v}, Rev: 1}})},
+			c19In{Ops: c19Lookups(r, []c19Op{{Kind: "add", Type: 1, Key: []string{"a", "x"}}, {Kind: "add", Type: 1, Key: []string{v, "x"}}, {Kind: "add", Type: 1, Key: []string{"x", v}}})},
+			c19In{Ops: c19Lookups(r, []c19Op{{Kind: "add", Type: 2, Key: []string{"s1", "1"}}, {Kind: "add", Type: 2, Key: []string{v, "2"}, Fmt: 1}})})
+	}
+	return ins
 }
 
 func c19Gen(r *vh.Rand, tier string, n int) []c19In {
@@ -319,6 +438,19 @@ func c19Gen(r *vh.Rand, tier string, n int) []c19In {
 			ops = append(ops, c19Op{Kind: "get", Type: 0, Key: []string{"a"}, MaxF: 1}, c19Op{Kind: "get", Type: 0, Key: []string{"a"}, MaxF: 0})
 		}
 		ins = append(ins, c19In{Ops: ops})
+	}
+	ins = append(ins, c19Sweep(r)...)
+	ins = append(ins, c19Dots(r)...)
+	for _, v := range append([]string{".", ".."}, c19Special...) {
+		v := v
+		ins = append(ins, c19In{Esc: &v})
+	}
+	for k := 0; k < 60; k++ { // random key values: printable ASCII without '/', some non-ASCII
+		v := r.Str("abzAZ09 .-_~$&+=:@,;%?#*[]\\!'(){}|<>^`\"", 1, 6)
+		if r.Chance(1, 5) {
+			v += r.Pick([]string{"é", "ß", "日", "\u00a0", "€"})
+		}
+		ins = append(ins, c19In{Esc: &v})
 	}
 	for k := 0; k < n; k++ {
 		ins = append(ins, c19History(r, r.Range(4, 30)))
